@@ -240,6 +240,95 @@ def plan_traitsize(schema, rm, mi, desc, lines, meta, res, cap=12):
         res.samples.append({"message": desc, "trait_args(counts...,total_data)": args, "expected_size": want})
 
 
+def _elements(rm, placed):
+    """[(start, end, kind)] covering the image: which structural element a truncation point falls into"""
+    els = [(0, rm.header.size, "msg-header")]
+
+    def lv(pl, depth, is_entry):
+        if pl.bl:
+            els.append((pl.block_start, pl.block_end, "entry-block" if is_entry else "root-block"))
+        for pg in pl.groups:
+            els.append((pg.start, pg.start + pg.hdr, "%s-group-header" % ("flat" if pg.rgroup.flat else "nested")))
+            for pe in pg.entries:
+                lv(pe, depth + 1, True)
+        for pd in pl.data:
+            els.append((pd.start, pd.start + pd.rdata.len_size, "data-prefix"))
+            if pd.payload:
+                els.append((pd.start + pd.rdata.len_size, pd.end, "data-payload"))
+
+    lv(placed, 0, False)
+    return els
+
+
+def _valclass(v, orig, mx):
+    if v == 0:
+        return "zero"
+    if v == mx:
+        return "max"
+    if v == mx - 1:
+        return "max-1"
+    if v == mx // 2 + 1:
+        return "half"
+    if v == orig - 1:
+        return "fit-1"
+    if v == orig + 1:
+        return "fit+1"
+    return "one" if v == 1 else "other"
+
+
+def plan_c06(schema, rm, mi, desc, lines, meta, res, cap=4, pairs=False):
+    from ..gen import checkedx as cx_
+    gs, dl = adaptive_bounds(rm, cap)
+    big = schema.big
+    res.counters["shapes"] = res.counters.get("shapes", 0) + 1
+
+    def emit(buf, n, what, cls):
+        buf = bytes(buf[:n]) if n <= len(buf) else bytes(buf) + bytes([0xEE]) * (n - len(buf))
+        jobs = [(0, 0, cx_.ref_message(rm, buf, n, big))]
+        for gi, pg in enumerate(placed.groups):
+            if pg.start <= n:
+                jobs.append((gi + 1, pg.start, cx_.ref_top_group(rm, gi, buf, pg.start, n, big)))
+        for sel, goff, (valid, size) in jobs:
+            cid = "s%d" % len(meta)
+            lines.append("S %s %d %d %d %d %d %s" % (cid, mi, sel, goff, 1 if valid else 0, size, buf.hex() if buf else "-"))
+            meta[cid] = {"message": rm.name, "desc": desc, "mode": "view=%s" % ("message" if sel == 0 else "group"), "shape": values.shape_str(shape),
+                         "what": what, "class": cls, "n": n, "buffer": buf.hex(), "want": [valid, size]}
+            res.counters["valid" if valid else "invalid"] = res.counters.get("valid" if valid else "invalid", 0) + 1
+
+    for shape in values.size_vectors(rm.level, gs, dl):
+        inst = values.fill(rm.level, shape, values.ByteGen(0x10))
+        img, placed = codec.encode(schema, rm, inst, fill=0xEE)
+        L = len(img)
+        els = _elements(rm, placed)
+        for n in list(range(0, L + 1)) + [L + 1, L + 9]:
+            if n == L:
+                cls = "exact"
+            elif n > L:
+                cls = "trailing-junk"
+            else:
+                kinds_ = [k for (a, b, k) in els if a <= n < b]
+                cls = "cut-in:" + (kinds_[-1] if kinds_ else "gap")
+            emit(img, n, "truncate@%d" % n, cls)
+        for label, off, size in cx_.header_fields(rm, placed):
+            orig = int.from_bytes(img[off:off + size], "big" if big else "little")
+            mx = (1 << (8 * size)) - 1
+            fam = label.rsplit(".", 1)[1]
+            owner = [k for (a, b, k) in els if a <= off < b]
+            where = owner[-1] if owner else "?"
+            for v in sorted({0, 1, max(orig - 1, 0), min(orig + 1, mx), mx - 1, mx, mx // 2 + 1}):
+                if v == orig:
+                    continue
+                b = bytearray(img)
+                b[off:off + size] = v.to_bytes(size, "big" if big else "little")
+                cls = "%s(%s,u%d)=%s" % (fam, where.replace("-group-header", "").replace("msg-header", "root"), 8 * size, _valclass(v, orig, mx))
+                for n in ((L - 1, L, L + 9) if pairs else (L,)):
+                    emit(b, n, "%s=%d(orig %d)@n=%d" % (label, v, orig, n), cls + ("" if n == L else ("@len-1" if n < L else "@len+9")))
+                res.counters["corruptions"] = res.counters.get("corruptions", 0) + 1
+        res.distinct.add((desc, values.shape_str(shape)))
+    if len(res.samples) < 2:
+        res.samples.append({"message": desc, "case": lines[-1][:200]})
+
+
 def choice_strings(maxlen):
     out = []
     for n in range(1, maxlen + 1):
